@@ -235,6 +235,7 @@ class Spec:
 class Path:
     def __init__(self):
         self.pc = []
+        self.dec_idx = set()   # positions in pc that are branch decisions (the rest are assumptions)
         self.obs = []
         self.result = None
         self.exc = None
@@ -261,6 +262,7 @@ class Interp:
         self.unchecked_stack = [False]
         self.prune = True
         self._prune_solver = None
+        self.run_id = 0
 
     # ---------------------------------------------------------------- path management
     def begin_path(self, prefix):
@@ -270,7 +272,7 @@ class Interp:
         self.fresh_counter = itertools.count()
 
     def fresh(self, base, sort='real'):
-        n = f"{base}!{next(self.fresh_counter)}"
+        n = f"{base}!{self.run_id}_{next(self.fresh_counter)}"
         if sort == 'real':
             return z3.Real(n)
         if sort == 'int':
@@ -280,7 +282,11 @@ class Interp:
         raise ValueError(sort)
 
     def assume(self, cond):
-        if cond is None or z3.is_true(cond):
+        if cond is None or cond is True:
+            return
+        if cond is False:
+            raise PathEnd()
+        if z3.is_true(cond):
             return
         if z3.is_false(cond):
             raise PathEnd()
@@ -327,7 +333,11 @@ class Interp:
         self.dpos += 1
         c = choice in (True, 'T!')
         self.path.trace.append(choice)
+        self.path.dec_idx.add(len(self.path.pc))
+        n_before = len(self.path.pc)
         self.assume(cond if c else z3.Not(cond))
+        if len(self.path.pc) == n_before:
+            self.path.dec_idx.discard(n_before)
         return c
 
     # ---------------------------------------------------------------- module / name resolution
@@ -496,6 +506,7 @@ def explore(interp, thunk, max_paths=400):
     """enumerate all paths of thunk() (a callable that uses interp).  Returns list of Path."""
     paths = []
     stack = [[]]
+    interp.run_id += 1
     while stack:
         prefix = stack.pop()
         interp.begin_path(prefix)
@@ -840,7 +851,7 @@ class Frame:
             if isinstance(val, float):
                 return SV(self.I.fresh(base, 'real'))
             if isinstance(val, SArr):
-                na = z3.Array(f"{base}!{next(self.I.fresh_counter)}", z3.IntSort(), val.a.sort().range())
+                na = z3.Array(f"{base}!{self.I.run_id}_{next(self.I.fresh_counter)}", z3.IntSort(), val.a.sort().range())
                 nn = val.n
                 if val.kind == 'list':
                     nn = self.I.fresh(base + '_len', 'int')
